@@ -320,6 +320,12 @@ func hashCandidate(t *rapid.T, p *refchess.Pos) int {
 			}
 			return int(eng.Enc(m))
 		}
+	case 4: // the castling encodings of the side to move, whether or not castling is available right now
+		from := 4
+		if !p.White {
+			from = 60
+		}
+		return int(eng.Enc(refchess.Move{From: from, To: from + []int{2, -2}[gen.Draw(t, 0, 1, "side")]}))
 	}
 	return gen.Draw(t, 0, 1<<15-1, "enc")
 }
